@@ -43,6 +43,10 @@ func Open(stream io.ReaderAt) (*DB, error) {
 		return nil, ErrInvalidMagic
 	}
 	size := binary.LittleEndian.Uint32(magicAndSize[8:])
+	// the largest well-formed header is 13 bytes + 255 key-value pairs of 2+255+255 bytes
+	if size > 13+1+indexmeta.MaxNumKVs*(2+indexmeta.MaxKeySize+indexmeta.MaxValueSize) {
+		return nil, fmt.Errorf("invalid header length: %d", size)
+	}
 	fileHeaderBuf := make([]byte, 8+4+size)
 	n, readErr = stream.ReadAt(fileHeaderBuf, 0)
 	if n < len(fileHeaderBuf) {
